@@ -437,6 +437,99 @@ fn handlers_part(rep: &Arc<Reporter>, args: &Args) {
     });
 }
 
+/// An in-memory transport whose server->client direction is delayed: models the round trip during which a client
+/// that has not yet seen the GOAWAY keeps opening streams.
+fn delayed_pair(delay: Duration) -> (tokio::io::DuplexStream, tokio::io::DuplexStream) {
+    use tokio::io::{AsyncReadExt, AsyncWriteExt};
+    let (client, relay_c) = tokio::io::duplex(256 * 1024);
+    let (relay_s, server) = tokio::io::duplex(256 * 1024);
+    let (mut c_rd, mut c_wr) = tokio::io::split(relay_c);
+    let (mut s_rd, mut s_wr) = tokio::io::split(relay_s);
+    tokio::spawn(async move { let _ = tokio::io::copy(&mut c_rd, &mut s_wr).await; let _ = s_wr.shutdown().await; });
+    let (tx, mut rx) = tokio::sync::mpsc::unbounded_channel::<(tokio::time::Instant, Vec<u8>)>();
+    tokio::spawn(async move {
+        let mut b = vec![0u8; 64 * 1024];
+        loop { match s_rd.read(&mut b).await { Ok(0) | Err(_) => break, Ok(n) => { if tx.send((tokio::time::Instant::now() + delay, b[..n].to_vec())).is_err() { break; } } } }
+    });
+    tokio::spawn(async move {
+        while let Some((at, data)) = rx.recv().await { tokio::time::sleep_until(at).await; if c_wr.write_all(&data).await.is_err() { break; } }
+        let _ = c_wr.shutdown().await;
+    });
+    (client, server)
+}
+
+/// (b') an HTTP/2 client opens a new stream while the GOAWAY is in flight (server->client delayed by 40 ms): the
+/// session must still wind down - the late stream answered or refused - and completion() must return.
+fn late_stream_part(rep: &Arc<Reporter>, args: &Args) {
+    let dir = env::work_dir(&args.root, "c19late");
+    let rt = env::rt_multi(4);
+    let rounds = args.qt(4u64, 60u64);
+    rt.block_on(async {
+        for round in 0..rounds {
+            for kind in 0..3u64 {
+                let name = ["tunnel", "ping", "speedtest"][kind as usize];
+                let ctx = Arc::new(env::make_ctx(&dir, env::CtxOpts { tweak: Some(Box::new(|b| b.speedtest_enable(true))), ..Default::default() }));
+                let base = ctx.shutdown.lock().unwrap().verif_participants();
+                let (client, server_io) = delayed_pair(Duration::from_millis(40));
+                let finished = Arc::new(AtomicBool::new(false));
+                let id = 190_000 + round * 10 + kind;
+                let server = { let (ctx2, fin) = (ctx.clone(), finished.clone()); tokio::spawn(async move {
+                    let peer = CLIENT_PEER.parse().unwrap();
+                    if let Ok(codec) = make_codec(&ctx2, Proto::H2, server_io, peer, id) {
+                        match kind {
+                            0 => { let fwd = RecFwd::new(|_| Outcome::Echo); let _ = trusttunnel::verif::tunnel::run_tunnel(&ctx2, codec, "main.test", Fwd::Scripted(fwd), Policy::Default, id).await; }
+                            1 => run_ping(&ctx2, codec, Duration::from_secs(30), id).await,
+                            _ => run_speedtest(&ctx2, codec, Duration::from_secs(30), id).await,
+                        }
+                    }
+                    fin.store(true, Ordering::SeqCst);
+                }) };
+                let Ok(Ok((mut send, mut conn))) = tokio::time::timeout(Duration::from_secs(5), h2::client::handshake(client)).await else { rep.inconclusive("late stream: HTTP/2 session not established"); server.abort(); continue };
+                let pp = conn.ping_pong();
+                let conn_task = tokio::spawn(async move { let _ = conn.await; });
+                if let Some(mut pp) = pp { let _ = tokio::time::timeout(Duration::from_secs(5), pp.ping(h2::Ping::opaque())).await; }
+                // registration barrier (as in the handlers part)
+                let sd = ctx.shutdown.clone();
+                let mut registered = false;
+                for _ in 0..5000 { let (n, g) = sd.lock().unwrap().verif_participants(); if n > base.0 && g > base.1 { registered = true; break; } tokio::time::sleep(Duration::from_millis(1)).await; }
+                if !registered { rep.inconclusive("late stream: handler had not registered with Shutdown within 5 s"); server.abort(); conn_task.abort(); continue; }
+                sd.lock().unwrap().submit();
+                // the session answers the notification with its GOAWAY at once; the client will see it 40 ms from now
+                tokio::time::sleep(Duration::from_millis(4 + (round % 4) * 6)).await;
+                let req = match kind {
+                    0 => http::Request::builder().method("CONNECT").uri("echo.test:7").body(()).unwrap(),
+                    1 => http::Request::builder().method("GET").uri("https://ping.test/").body(()).unwrap(),
+                    _ => http::Request::builder().method("GET").uri("https://speed.test/1mb.bin").body(()).unwrap(),
+                };
+                let sent = match tokio::time::timeout(Duration::from_secs(2), futures::future::poll_fn(|cx| send.poll_ready(cx))).await { Ok(Ok(())) => send.send_request(req, kind != 0).ok(), _ => None };
+                let sent_ok = sent.is_some();
+                // the late stream is answered or refused; either way the client then lets go of the session
+                let late = tokio::spawn(async move {
+                    let Some((fut, tx)) = sent else { return "not sent (the client had already been told to go away)".to_string() };
+                    let r = tokio::time::timeout(Duration::from_secs(8), fut).await;
+                    drop(tx);
+                    match r { Ok(Ok(resp)) => format!("answered {}", resp.status()), Ok(Err(e)) => format!("refused ({})", e.to_string().chars().take(40).collect::<String>()), Err(_) => "neither answered nor refused within 8 s".to_string() }
+                });
+                let done = tokio::time::timeout(Duration::from_secs(10), tokio::task::spawn_blocking({ let sd = sd.clone(); move || { let rt = tokio::runtime::Builder::new_current_thread().build().unwrap(); rt.block_on(async { #[allow(clippy::await_holding_lock)] { let mut g = sd.lock().unwrap(); g.completion().await; } }) } })).await;
+                let late_outcome = tokio::time::timeout(Duration::from_secs(9), late).await.ok().and_then(|r| r.ok()).unwrap_or_else(|| "unknown".into());
+                drop(send);
+                rep.evals(1);
+                rep.distinct(common::fnv(format!("late|{}|{}", round, name).as_bytes()));
+                let w = json!({"kind":"shutdown-late-stream","handler":name,"round":round,"server_to_client_delay_ms":40,"late_stream_sent":sent_ok,"late_stream":late_outcome,"handler_finished":finished.load(Ordering::SeqCst)});
+                if rep.want_sample() { rep.sample(w.clone()); }
+                match done {
+                    Err(_) => rep.violation("completion() did not return within 10 s after an HTTP/2 stream arrived while the GOAWAY was in flight", w),
+                    Ok(_) if !finished.load(Ordering::SeqCst) => { tokio::time::sleep(Duration::from_millis(30)).await; if !finished.load(Ordering::SeqCst) { rep.violation("completion() returned while a session handler was still running", w); } else { rep.tally("late stream: completion returned after the handler finished", 1); } }
+                    Ok(_) if late_outcome.starts_with("neither") => rep.violation("an HTTP/2 stream that arrived while the GOAWAY was in flight was neither answered nor refused", w),
+                    Ok(_) => { rep.tally("late stream: completion returned after the handler finished", 1); rep.tally(&format!("late stream: {}", if sent_ok { if late_outcome.starts_with("answered") { "answered" } else { "refused" } } else { "not sent" }), 1); }
+                }
+                server.abort();
+                conn_task.abort();
+            }
+        }
+    });
+}
+
 async fn watcher_with_drop(watcher: tokio::task::JoinHandle<(bool, ())>, keep: Option<h2::SendStream<bytes::Bytes>>, send: h2::client::SendRequest<bytes::Bytes>) -> bool {
     // keep the stream open for a short while after shutdown starts, then release everything so the connection can end
     let rel = tokio::spawn(async move { tokio::time::sleep(Duration::from_millis(30)).await; drop(keep); drop(send); });
@@ -453,7 +546,7 @@ pub fn run(args: &Args) -> i32 {
          delays, work lengths 0-4 or endless (only the notification ends it), 0-2 steps between registration and the first wait, submit delay 0-2, wait delay 0-1) and two 3-participant scenarios up to a schedule cap, plus seeded random walks with 3-8 \
          participants; oracle over the event log (registered-before-submit => notified unless own work ended first; Completed never before a registered \
          participant's Finished; no hang). (b) real Tunnel / ping / speedtest handlers on in-memory h1/h2 sessions on an 8-thread runtime: graceful end seen by \
-         each client, completion returns after all handlers. distinct_nontrivial = distinct event orders / rounds.",
+         each client, completion returns after all handlers; (b') an HTTP/2 client whose view of the session lags by 40 ms opens a stream while the GOAWAY is in flight. distinct_nontrivial = distinct event orders / rounds.",
     ));
     rep.assume("participants that register while completion() holds the Shutdown lock are outside the statement (recorded, not judged)");
     rep.assume("the executor polls one ready task per step; tokio's broadcast/mpsc channels only need wakers");
@@ -461,6 +554,7 @@ pub fn run(args: &Args) -> i32 {
     if args.has_flag("--only-h3") { crate::props::h3_l2::c19_h3(&rep, args); return rep.finish(); }
     executor_part(&rep, args);
     handlers_part(&rep, args);
+    late_stream_part(&rep, args);
     crate::props::h3_l2::c19_h3(&rep, args);
     crate::props::c19_bin::run_bin(&rep, args);
     rep.finish()
